@@ -192,6 +192,10 @@ def gen_write(rng, tr, mix):
                 ps = ps[:-1]
             if rng.random() < 0.1:
                 w = w + 1                        # wrong id: refusal stream
+            elif rng.random() < 0.15 and ps:
+                # a refused deletion whose list STARTS with attached prefixes: nothing of it may take effect
+                others = [p for p in tr.pref if tr.pref[p] != w]
+                ps = list(ps) + [rng.choice(others) if others and rng.random() < 0.6 else pick_prefix(rng, tr)]
             return 7, [w, ps]
         return 7, [rng.randint(1, 5), [pick_prefix(rng, tr)]]
     if name == "add_prefix":
